@@ -114,6 +114,34 @@ def r25_2(ctx, rep):
         raise MechanismMissing(R, "fewer than 4 Equation constructions found in tree.py")
 
 
+@SPEC.rule(
+    "R25.3",
+    "one fresh element per AST node: every handler of XmlGenerator stores under self.xml[tree] an element it has just "
+    "constructed with E(...); an element taken from any other cache (per name, per value ...) would be shared by "
+    "several parents, and lxml moves a shared element to its last parent",
+)
+def r25_3(ctx, rep):
+    R = "R25.3"
+    ms = ctx.methods(XML, CLS, R)
+    n = 0
+    for name, fn in sorted(ms.items()):
+        if not name.startswith(("exit", "enter")):
+            continue
+        for st in walk_local(fn):
+            if isinstance(st, ast.Assign) and norm(st.targets[0]) == "self.xml[tree]":
+                n += 1
+                v = st.value
+                fresh = isinstance(v, ast.Call) and is_name(v.func, "E")
+                if isinstance(v, ast.Name):
+                    defs = [d for d in walk_local(fn) if isinstance(d, ast.Assign) and is_name(d.targets[0], v.id)]
+                    fresh = bool(defs) and all(isinstance(d.value, ast.Call) and is_name(d.value.func, "E") for d in defs)
+                rep.ob(R, "%s:%s.%s" % (XML, CLS, name), "element stored for the node", fresh,
+                       "self.xml[tree] must be a newly built E(...) element; `%s` may hand the same element to two parents "
+                       "(the earlier parent silently loses it)" % norm(v)[:70])
+    if n < 8:
+        raise MechanismMissing(R, "fewer than 8 element stores found in XmlGenerator")
+
+
 # -- seeded variants ---------------------------------------------------------
 from ._mut import replace_in_func  # noqa: E402
 
@@ -152,3 +180,15 @@ def _m3(mod):
         return False
 
     return mod if replace_in_func(mod, "XmlGenerator.exitExpression", edit) else None
+
+
+@SPEC.mutant("local element cached per variable name", XML, "R25.3", "exitComponentRef")
+def _m4(mod):
+    def edit(fn):
+        for st in fn.body:
+            if isinstance(st, ast.Assign) and norm(st.targets[0]) == "self.xml[tree]":
+                st.value = ast.parse("self._locals.setdefault(tree.name, E('local', name=tree.name))", mode="eval").body
+                return True
+        return False
+
+    return mod if replace_in_func(mod, "XmlGenerator.exitComponentRef", edit) else None
